@@ -66,8 +66,8 @@ def oracle(case, outcome, ctx):
     desc = f"t={case['t']} prefix={prefix} haps={design.get('haps')} gen={case['gen']}\npretext={case['pretext']}"
     if not outcome["ok"]:
         e = outcome["exc"]
-        if vanish:
-            ctx.count(f"vanish-error:{e['type']}@{e['fn']}")
+        if vanish or "tag:haplotig-slivers" in case["labels"]:
+            ctx.count(f"vanish-or-sliver-error:{e['type']}@{e['fn']}")  # hostile extras: an error is an allowed outcome
             return
         ctx.violation(f"designed-tagging-raised-{e['type']}@{e['fn']}", f"{e['msg'][:500]}\n{desc}", stripped)
         return
@@ -211,8 +211,9 @@ def oracle(case, outcome, ctx):
         if other:
             err("haplotig-name", f"{other}")
         ctx.count("haplotig-scaffolds", len(hn))
-        all_solid = all(id(pc) in dests for pc in pieces if pc["kind"] == "htig")
-        if all_solid and hn != list(range(1, len(hn) + 1)):
+        # haplotigs are renamed by size after all discards and cuts: an emptied one sorts last and takes
+        # the last number, so H_1..H_n has no holes whatever was dropped on the way
+        if hn != list(range(1, len(hn) + 1)):
             err("haplotig-numbers-have-holes", f"{hn}")
         by = {int(s[0][2:]): (tot_len(s[1]), seq_len(s[1])) for s in scs if re.fullmatch(r"H_\d+", s[0])}
         l1 = [by[k][0] for k in sorted(by)]
@@ -300,5 +301,6 @@ def gates(c, tier):
         "homologue-groups": 300,
         "csv:lines": 3000,
         "label:tag:vanishing-candidate": 20,
+        "label:tag:haplotig-slivers": 200,
     }
     return [f"{k}>={v} (got {c.get(k, 0)})" for k, v in need.items() if c.get(k, 0) < v]
